@@ -82,6 +82,11 @@ func (x *Exec) sameVal(a, b Value) *Term {
 			return Not(Or(And(av, Not(bv)), And(Not(av), bv)))
 		}
 		return bvcmp("=", av, bv)
+	case *OpaqueStr:
+		if bo, ok := b.(*OpaqueStr); ok {
+			return x.opaqueEq(av, bo)
+		}
+		panic(abortPath{"opaque number string compared with ordinary text", false})
 	case *Str:
 		return x.strEq(av, b.(*Str))
 	case StructV:
@@ -149,4 +154,70 @@ func (x *Exec) sameVal(a, b Value) *Term {
 		return Bool(b == nil)
 	}
 	panic(fmt.Sprintf("sameVal %T", a))
+}
+
+// freeze marks every cell and map reachable from v as frozen (shared between paths)
+func freeze(v Value, seen map[interface{}]bool) {
+	switch u := v.(type) {
+	case Ptr:
+		if u.o != nil {
+			freezeObj(u.o, seen)
+		}
+	case SliceV:
+		if u.a != nil {
+			freezeObj(u.a, seen)
+		}
+	case StructV:
+		for _, f := range u.f {
+			freeze(f, seen)
+		}
+	case ArrayV:
+		for _, f := range u.e {
+			freeze(f, seen)
+		}
+	case Tuple:
+		for _, f := range u {
+			freeze(f, seen)
+		}
+	case Iface:
+		freeze(u.v, seen)
+	case *MapObj:
+		if u != nil && !seen[u] {
+			seen[u] = true
+			u.frozen = true
+			for i := range u.keys {
+				freeze(u.keys[i], seen)
+				freeze(u.vals[i], seen)
+			}
+		}
+	case *Closure:
+		if u != nil {
+			for _, b := range u.bind {
+				freeze(b, seen)
+			}
+		}
+	}
+}
+
+func freezeObj(o Obj, seen map[interface{}]bool) {
+	if seen[o] {
+		return
+	}
+	seen[o] = true
+	switch o := o.(type) {
+	case *Cell:
+		if _, isNative := o.v.(Native); isNative {
+			return // native handles (compiled regexps) are internally synchronised and never stored through
+		}
+		o.frozen = true
+		freeze(o.v, seen)
+	case *StructObj:
+		for _, f := range o.f {
+			freezeObj(f, seen)
+		}
+	case *ArrayObj:
+		for _, f := range o.e {
+			freezeObj(f, seen)
+		}
+	}
 }
